@@ -12,7 +12,7 @@
 (*   Terminates                                (C06, liveness)             *)
 (* Fam selects the tree set: "C01" includes the failing variable e.        *)
 (***************************************************************************)
-EXTENDS Machine
+EXTENDS Machine, Json
 
 CONSTANTS Fam, Big
 
@@ -94,4 +94,6 @@ Agree ==
       IN Cardinality(R \ {<<"e", "e">>}) <= 1
 
 \* hide nothing: the machine state is the state.  (s.eff is needed by EffectsExact.)
+\* every tree of the bounded set is printed once, for replay against the real code
+EmitTrees == (s.st = "cfg") => PrintT("CASE " \o ToJson(tree))
 =============================================================================
